@@ -123,8 +123,18 @@ func oneCase(s kem.Scheme, k, e int) {
 		viol(s, "panic-derive", "seed", seed, "panic", p.Value)
 		return
 	}
-	pkb, _ := pk.MarshalBinary()
-	skb, _ := sk.MarshalBinary()
+	// what MarshalBinary hands out is the caller's: it is copied and then
+	// overwritten; the keys must not change with it (checked by everything
+	// that follows: determinism, Public(), round trip)
+	handOut := func(b []byte, _ error) []byte {
+		c := lib.Clone(b)
+		for i := range b {
+			b[i] ^= 0x3C
+		}
+		return c
+	}
+	pkb := handOut(pk.MarshalBinary())
+	skb := handOut(sk.MarshalBinary())
 	pkb2, _ := pk2.MarshalBinary()
 	skb2, _ := sk2.MarshalBinary()
 	// repeat a few more times: the known nondeterminism is a coin flip
@@ -142,9 +152,10 @@ func oneCase(s kem.Scheme, k, e int) {
 	if len(pkb) != s.PublicKeySize() || len(skb) != s.PrivateKeySize() {
 		viol(s, "size", "what", "key", "pk", len(pkb), "sk", len(skb))
 	}
-	pkFromSk, _ := sk.Public().MarshalBinary()
-	if !lib.Eq(pkFromSk, pkb) {
-		viol(s, "public-mismatch", "seed", seed)
+	pkFromSk := handOut(sk.Public().MarshalBinary())
+	pkAgain, _ := pk.MarshalBinary()
+	if !lib.Eq(pkFromSk, pkb) || !lib.Eq(pkAgain, pkb) {
+		viol(s, "public-mismatch", "seed", seed, "sk_public_equals_pk", lib.Eq(pkFromSk, pkb), "pk_unchanged_after_its_encoding_was_overwritten", lib.Eq(pkAgain, pkb))
 	}
 
 	eseedIn := lib.Clone(eseed)
